@@ -70,6 +70,8 @@ structure St where
   r : RPc := .idle
   /-- wakers invoked so far, in order -/
   woken : List Nat := []
+  /-- GHOST (read by no step): every registration of a waker, in order -/
+  pushed : List Nat := []
   deriving Repr
 
 def setF (s : St) (i : Nat) (pc : FPc) : St := { s with f := s.f.set i pc }
@@ -84,7 +86,7 @@ def stepF (s : St) (i : Nat) : St :=
     | .ldTail h => if s.T - h ≥ s.len then setF s i .lockBlocked else setF s i .lockSub
     | .lockBlocked =>
       -- lock, push the waker, unlock: one segment (no scheduling point inside)
-      { setF s i .pending with blocked := s.blocked ++ [i] }
+      { setF s i .pending with blocked := s.blocked ++ [i], pushed := s.pushed ++ [i] }
     | .lockSub =>
       match s.subLock with
       | none => { setF s i .ldHead2 with subLock := some i }
